@@ -8,6 +8,7 @@ obs  = {"chan": {"<mode>/<channel>": outcome}, "loaded": {"<mode>/<doc>": loaded
 outcome = ["ok", tagged value] | ["rejected"] | ["crash", exception class name]
 Nothing here decides anything: verdicts are computed in Coq."""
 import contextlib
+import contextvars
 import enum
 import io
 import json
@@ -259,6 +260,19 @@ def run_case(case, tmp):
                 except KeyError:
                     ans = ["other", "KeyMissing"]
             loaded[m + name] = ans
+    if case.get("after"):
+        # the same setting once more (yaml mode) after ANOTHER parser's parse_args was rejected while applying a --cfg
+        # value, the key itself having been set by an accepted option before: nothing of that call may survive
+        pz = make_parser(case, T, "yaml")
+        poison = outcome(lambda: pz.parse_args([opt + "=" + text, "--cfg", case["after"]]), dest)
+        chan["yaml/poison"] = poison
+        p = make_parser(case, T, "yaml")
+        name = "json_nested"
+        chan["yaml/argv_eq@after"] = outcome(lambda: p.parse_args([opt + "=" + text]), dest)
+        chan["yaml/object_nested@after"] = outcome(lambda: p.parse_object(json.loads(json.dumps(nested))), dest)
+        chan["yaml/string@after:" + name] = outcome(lambda: make_parser(case, T, "yaml").parse_string(docs[name]), dest)
+        chan["yaml/path@after:" + name] = outcome(lambda: make_parser(case, T, "yaml").parse_path(files[name]), dest)
+        chan["yaml/cfgfile@after:" + name] = outcome(lambda: make_parser(case, T, "yaml").parse_args(["--cfg", files[name]]), dest)
     strs = [text]
     strings_of(val, strs)
     oracle, seen = [], set()
@@ -269,6 +283,99 @@ def run_case(case, tmp):
     from jsonargparse._namespace import clash_names
 
     return {"chan": chan, "loaded": loaded, "oracle": oracle, "envvar": envvar, "clash": any(k in clash_names for k in key)}
+
+
+# ---------------------------------------------------------------------------------------------------------------------
+# history family: keys whose parsing consults the previous value of the key
+# ---------------------------------------------------------------------------------------------------------------------
+def hist_parser(mode):
+    import calendar
+    from dataclasses import dataclass
+    from typing import Dict, List, Optional
+
+    global HOpt
+    if "HOpt" not in globals():
+        @dataclass
+        class HOpt:
+            lr: int = 1
+            name: str = "sgd"
+
+    p = ArgumentParser(exit_on_error=False, parser_mode=mode, env_prefix="APP")
+    p.add_argument("--cfg", action=ActionConfigFile)
+    p.add_argument("--opt", type=HOpt)
+    p.add_argument("--opts", type=List[HOpt])
+    p.add_argument("--omap", type=Dict[str, HOpt])
+    p.add_argument("--oopt", type=Optional[HOpt])
+    p.add_argument("--cal", type=calendar.Calendar)
+    p.add_argument("--steps", type=int, default=3)
+    return p
+
+
+def hist_outcome(fn):
+    try:
+        with contextlib.redirect_stderr(io.StringIO()), contextlib.redirect_stdout(io.StringIO()):
+            cfg = fn()
+        dic = cfg.as_dict()
+        dic.pop("cfg", None)
+        return ["ok", tag(json.loads(json.dumps(dic, default=repr, sort_keys=True)))]   # key order is not part of a configuration
+    except ArgumentError:
+        return ["rejected"]
+    except SystemExit as e:
+        return ["crash", "SystemExit%s" % e.code]
+    except BaseException as e:
+        return ["crash", type(e).__name__]
+
+
+def hist_argv(s):
+    a = []
+    for k, v in s.items():
+        if k == "opt":
+            a += ["--opt.%s=%s" % (f, x) for f, x in v.items()]
+        elif k == "cal":
+            if "class_path" in v:
+                a.append("--cal=" + v["class_path"])
+            a += ["--cal.init_args.%s=%s" % (f, x) for f, x in v.get("init_args", {}).items()]
+        elif k == "steps":
+            a.append("--steps=%s" % v)
+        else:
+            a.append("--%s=%s" % (k, json.dumps(v)))
+    return a
+
+
+def hist_channels(s, mode, tmp):
+    js = json.dumps(s)
+    path = os.path.join(tmp, "hist.json")
+    with open(path, "w") as f:
+        f.write(js)
+    return {
+        "object": hist_outcome(lambda: hist_parser(mode).parse_object(json.loads(js))),
+        "string": hist_outcome(lambda: hist_parser(mode).parse_string(js)),
+        "path": hist_outcome(lambda: hist_parser(mode).parse_path(path)),
+        "cfgstr": hist_outcome(lambda: hist_parser(mode).parse_args(["--cfg", js])),
+        "cfgfile": hist_outcome(lambda: hist_parser(mode).parse_args(["--cfg", path])),
+        "argv": hist_outcome(lambda: hist_parser(mode).parse_args(hist_argv(s))),
+    }
+
+
+def run_hist(case, tmp):
+    """clean-state answers of every channel, then the poisoning call on another parser, then the answers again"""
+    mode = case["mode"]
+    clean = hist_channels(case["settings"], mode, tmp)
+    argv = []
+    for k, item in enumerate(case["poison"]):
+        if item[0] == "cfgfile":
+            path = os.path.join(tmp, "poison%d.yaml" % k)
+            with open(path, "w") as f:
+                f.write(item[1])
+            argv += ["--cfg", path]
+        elif item[0] == "cfg":
+            argv += ["--cfg", item[1]]
+        else:
+            argv.append(item[1])
+    pz = hist_parser(case.get("poison_mode", "yaml"))
+    poison = hist_outcome(lambda: pz.parse_args(argv))
+    after = hist_channels(case["settings"], mode, tmp)
+    return {"hist": {k: [clean[k], after[k]] for k in clean}, "poison": poison[0], "poison_argv": argv}
 
 
 def untag_loaded(t):
@@ -295,7 +402,8 @@ def main():
     try:
         for case in payload["cases"]:
             try:
-                out.append(run_case(case, tmp))
+                fn = run_hist if case.get("kind") == "hist" else run_case
+                out.append(contextvars.copy_context().run(fn, case, tmp))
             except Exception as e:
                 out.append({"error": "%s: %s" % (type(e).__name__, e)})
     finally:
